@@ -11,4 +11,57 @@ PROPS = {
         'assumptions': ['application-side string rules (no wildcard / U+0000 in topic names, valid UTF-8) are not enforced by the library and are constraints of the generator',
                         'payloads above 64 bytes are compared by length, checksum and 32-byte head'],
     },
+    'C06': {
+        'engines': [('rp', 600, 6000), ('parse', 600, 6000), ('ustr', 200, 3000), ('serve', 300, 4000)],
+        'rule': 'structured streams (valid prefix, one mutation from each malformed class of the property, trailing garbage), '
+                'boundary byte alphabet {00,01,02,7f,80,ff} (exhaustively up to 6 length bytes / 4 body bytes in the thorough tier) '
+                'and random soup; non-trivial = reached a parser or the length loop; distinct = distinct case line',
+        'assumptions': ['the end-to-end stream runs feed the bytes after an accepting CONNACK and end the stream with EOF',
+                        'ill-formed UTF-8 in a topic is not in the property list: Go replaces it by U+FFFD (reported as a note in DESIGN.md, D16)'],
+    },
+    'C14': {
+        'engines': [('filter', 300, 3000), ('match', 600, 6000), ('matchsweep', 1, 1), ('mux', 200, 2000)],
+        'rule': 'all filter strings over {a,b,+,#,/} up to length 4 (6 thorough); all filter x topic pairs up to length 3 (4 thorough) against '
+                'the Lean model; exhaustive Go-side sweep of all pairs up to filter length 5 / topic length 4 (6/6 thorough) against the §4.7 '
+                'oracle; random long strings with multi-byte runes; non-trivial = valid filter',
+        'assumptions': ['topic names starting with $ are outside the property'],
+    },
+    'C15': {
+        'engines': [('ids', 200, 2000), ('idconc', 1, 1), ('initid', 2000, 200000), ('apipub', 150, 3000)],
+        'rule': 'id sequences from counter values around every wrap point (uint16 and uint32) compared with the model; full 65535-call '
+                'windows checked for duplicates; concurrent callers (2..64 goroutines) checked for duplicates and zero',
+        'partial': 'the statement "unique among outstanding requests" is proved for requests issued within the last 65535 issues '
+                   '(window_nodup); beyond that the code reuses ids (known finding reuse-after-65535-later-issues, window_tight)',
+        'assumptions': ['atomic.AddUint32 linearises concurrent increments (Go memory model, not formalised)'],
+    },
+    'C08': {
+        'lean_modules': ['C08a'],
+        'engines': [('subs', 400, 4000)],
+        'rule': 'Subscribe/Unsubscribe call histories over 3 filters x 3 QoS with repeated filters, changed QoS, multi-filter calls, '
+                'duplicates inside one call and absent filters (all histories of <= 4 calls over a 10-call alphabet in the thorough tier)',
+        'assumptions': [],
+    },
+    'C04': {
+        'engines': [('inflow', 300, 3000), ('serve', 150, 1500)],
+        'rule': 'sequences of length 0-40 over PUBLISH qos0/1/2 (ids 1,2,3,65535, dup bits) and PUBREL (known and unknown ids), '
+                'with and without handler, fed to a connected BaseClient; all sequences up to length 5 over a 9-symbol alphabet in the '
+                'thorough tier; non-trivial = stream of well-formed PUBLISH/PUBREL packets (the C04 timeline oracle applied)',
+        'assumptions': ['the handler logs on exit after yielding, so an acknowledgement written before the handler returned would be seen out of order',
+                        'transport writes succeed (a failing ack write ends the connection; covered by C11/C16)'],
+    },
+    'C19': {
+        'engines': [('err', 400, 4000)],
+        'rule': 'error chains built with the real wrappers (wrapError, wrapErrorWithRetry via hooks; fmt %w; ConnectionError; '
+                'RequestTimeoutError from requestContext; a struct with an Err field) over 16 sentinels; targets = every node, every '
+                'sentinel, fresh errors, io.EOF; all chains up to depth 4 in the thorough tier, random depth <= 12 otherwise',
+        'assumptions': ['error values are comparable (pointers), as all library and standard-library errors are',
+                        'the retry-handle half of the property (Retry re-issues the same request) is decided with C12'],
+    },
+    'C20': {
+        'engines': [('c20', 300, 3000)],
+        'rule': 'ServeMux / ServeAsync with 1-6 matching handlers that run scripted mutations (set topic, overwrite payload bytes in '
+                'place, zero, append into spare capacity, reslice, flip flags/id) and snapshot what they received on entry; 1-5 rounds '
+                'reusing one caller message; payload 0-64 bytes',
+        'assumptions': ['handlers respect the frame condition of Props/C20 (they write only what they were given or allocated)'],
+    },
 }
